@@ -70,6 +70,11 @@ def k_align(run, case):
         n = -1 if rng.random() < .4 else int(rng.integers(3, N + 1))
     toy = bool(case.get("toy"))
     ref, est, ext, noise = make_toy_pair(rng, N) if toy else make_pair(rng, N)
+    fileq = None
+    if not toy and storage == "xyzq" and rng.random() < .2:
+        # quaternions as read from a text file: unit only to 4..8 decimals
+        fileq = int(rng.integers(4, 9))
+        est, ref = gen.file_precision(est, fileq), gen.file_precision(ref, fileq)
     stamped = bool(rng.random() < .5)
     ref_storage = storage if rng.random() < .7 else "se3"
     fl_ref, fl_est = gen.rand_flavour(rng), case.get("flavour") or gen.rand_flavour(rng)
@@ -99,7 +104,7 @@ def k_align(run, case):
     used = N if n == -1 else n
     x, y = est["p"][:used].T, ref["p"][:used].T
     dig = core.digest(ref["p"], est["p"], est["R"], mode, n, storage)
-    run.seen(case, dig, cls=["align:" + mode, "storage:" + storage] + (["whole-number data in integer containers"] if toy else []) + [
+    run.seen(case, dig, cls=["align:" + mode, "storage:" + storage] + (["whole-number data in integer containers"] if toy else []) + (["quaternions of file precision"] if fileq else []) + [
                              "n=-1" if n == -1 else "n<N" if n < N else "n=N",
                              "noise=0" if noise == 0 else "noise>0"],
              sample={"N": N, "mode": mode, "n": n, "storage": storage, "outcome": out[0],
@@ -113,7 +118,8 @@ def k_align(run, case):
         run.hit("align refused / result rejected")
         return
     r, t, s = info["r"], info["t"], info["c"]
-    v = contracts.views_consistent(run, case, t_est, pfx="views after align")
+    v = contracts.views_consistent(run, case, t_est, pfx="views after align",
+                                   qnorm_tol=1e-9 if not fileq else 4 * 10.0**-fileq)
     scale = 1.0 + float(np.max(np.abs(ref["p"]))) + float(np.max(np.abs(est["p"]))) * max(s, 1.0)
     if only:
         p_exp = s * est["p"]
